@@ -3,6 +3,7 @@ import PestModel.Lemmas.Debugger
 import PestModel.Lemmas.DebuggerInv
 import PestModel.Lemmas.DebuggerCtrl
 import PestModel.Lemmas.DebuggerTerm
+import PestModel.Lemmas.DebuggerNoPanic
 /-!
 C17 — the debugger reports exactly the breakpoint hits of the parse under any timing.
 
@@ -128,5 +129,47 @@ def cleanInit : State := State.init [(2, 0), (2, 1)] true [(1, .ok), (0, .err)] 
 
 example : let s := exec cleanInit [false, false, false, true, true, true, false, false, false, false, false]
     s.cpc = .runJoin ∧ s.cleanRestart = true := by decide
+
+theorem parserIter_frame : ∀ (n : Nat) {s s' : State}, parserIter n s = some s' → PanicFree s →
+    PanicFree s' ∧ s'.cpc = s.cpc ∧ s'.rets = s.rets
+  | 0, s, s', h, hp => by simp [parserIter] at h; subst h; exact ⟨hp, rfl, rfl⟩
+  | n + 1, s, s', h, hp => by
+    simp only [parserIter] at h
+    cases hs : parserStep s with
+    | none => simp [hs] at h
+    | some s1 =>
+      simp only [hs, Option.bind_some] at h
+      have hf := parserStep_frame hs
+      obtain ⟨a, b, c⟩ := parserIter_frame n h (PanicFree_parser hp hs)
+      exact ⟨a, by rw [b, hf.2.1], by rw [c, hf.2.2.1]⟩
+
+/-- **A clean restart starts the new run** (partial in the same way as `restart_terminates_partial`): when aborting the
+parse never ends in a panic of the parser thread (`AbortsClean`: the outcomes measured on the real VM, one per entry — the
+check reports a measured panic as a violation), the previous thread exits normally, `join` returns `Ok`, and the controller's
+next three steps clear the flag, spawn the new thread and return `Ok(())`. -/
+theorem restart_starts_new_run (s0 s : State) (h0 : Init s0) (hab : AbortsClean s0) (hr : Reach s0 s) (hj : s.cpc = .runJoin)
+    (hcl : CleanRestart s) :
+    ∃ n s' s1 s2 s3, parserIter n s = some s' ∧ controllerStep s' = some s1 ∧ controllerStep s1 = some s2 ∧
+      controllerStep s2 = some s3 ∧ s3.cur = some Thread.fresh ∧ s3.cpc = .idle ∧ s3.rets = s.rets ++ ["run:ok"] := by
+  obtain ⟨n, s', t, p, hn, hc, hpc⟩ := restart_terminates_partial s0 s h0 hr hj hcl
+  have hpf0 : PanicFree s0 := by
+    obtain ⟨entries, ok, ab, cap, bps, todo, _, rfl⟩ := h0
+    exact PanicFree_init entries ok ab cap bps todo hab
+  obtain ⟨hpf, hcpc, hrets⟩ := parserIter_frame n hn (PanicFree_reach hpf0 hr)
+  have hp : p = false := by
+    have := hpf.pc t hc
+    rw [hpc] at this
+    cases p <;> simp_all [okPc]
+  subst hp
+  rw [hj] at hcpc
+  let s1 : State := { s' with cpc := .runStoreFalse, cur := none, old := s'.old ++ [t] }
+  let s2 : State := { s1 with cpc := .runSpawn, isDone := false }
+  let s3 : State := { s2 with cpc := .idle, cur := some Thread.fresh, bpsAt := [], received := [], rets := s2.rets ++ ["run:ok"] }
+  refine ⟨n, s', s1, s2, s3, hn, ?_, rfl, rfl, rfl, rfl, ?_⟩
+  · simp only [controllerStep, hcpc, hc, hpc, s1]
+  · simp [s3, s2, s1, hrets]
+
+/-- non-vacuity: `cleanInit` (thread parked at a received breakpoint, restart) has no panicking abort outcome. -/
+example : AbortsClean cleanInit := by unfold AbortsClean cleanInit State.init; simp
 
 end PestModel.Thm.C17
